@@ -20,6 +20,9 @@ def run(ctx, rep):
     runloop.r12j(ctx, rep)
     runloop.r07h(ctx, rep, rule="R12k")
     runloop.r12l(ctx, rep)
+    runloop.r12p(ctx, rep)
+    runloop.r12q(ctx, rep)
+    runloop.r12r(ctx, rep)
     from . import prelude
     prelude.r12n(ctx, rep)
     runloop.r07i(ctx, rep, rule="R12m")
